@@ -25,6 +25,9 @@ def maybe_yield(ex, g, fr):
         return False
     if ex.opts.get("no_preempt"):
         return False
+    pb = ex.opts.get("preempt_bound")
+    if pb is not None and ex.preemptions >= pb:
+        return False
     # order: current goroutine first so that the first explored schedule is the sequential one
     runnable.remove(g)
     runnable.insert(0, g)
@@ -32,6 +35,7 @@ def maybe_yield(ex, g, fr):
     ex.sched_points += 1
     if k == 0:
         return False
+    ex.preemptions += 1
     g.yielded = True
     fr.ii -= 1
     ex.cur = runnable[k]
